@@ -33,6 +33,15 @@ type Seq struct {
 	No      int
 	OpNo    int
 	pre     *Obs
+	// Pending, if set, is a governance parameter change that is enacted at the next block boundary (after the
+	// end blockers of the current block, before the cdp begin blocker of the next: where the governance end
+	// blocker and the committee begin blocker write parameters on a live chain)
+	Pending func(p *cdptypes.Params) string
+	NGov    int
+	GovPct  int // percentage of the generated blocks that start with a governance change (0 = never)
+	// after a governance change about a collateral type the next few generated operations go to CDPs of that type
+	// (keeper attempts, draws and withdrawals to the ratio): the gates must read the parameters in force
+	focusTy, focusN int
 	// AfterCase, if set, sees every executed operation (used for Go-side checks)
 	AfterCase func(kind string, args []string, pre, post Obs, cls kapp.Class, err error)
 }
@@ -42,8 +51,39 @@ func (w *World) NewSeq(out *c.Out, cmd string, no int, r *c.Rng, p cdptypes.Para
 	ctx = ctx.WithBlockHeight(w.Base.BlockHeight()).WithBlockTime(w.Base.BlockTime())
 	kapp.SetParams(w.App, ctx, "cdp", &p, func() { w.Keeper().SetParams(ctx, p) })
 	gen := w.App.GetBankKeeper().GetSupply(ctx, "usdx").Amount.BigInt()
-	return &Seq{W: w, Ctx: ctx, R: r, Out: out, Cmd: cmd, P: p, PStr: w.ParamsString(p, gen), GenUsdx: gen,
-		Tol: make([]int64, len(Types)), No: no}
+	s := &Seq{W: w, Ctx: ctx, R: r, Out: out, Cmd: cmd, GenUsdx: gen, Tol: make([]int64, len(Types)), No: no}
+	s.RefreshParams()
+	return s
+}
+
+// RefreshParams reads the parameters in force from the x/params store (never through the module keeper) and
+// renders the parameter field of the following case lines from them.
+func (s *Seq) RefreshParams() {
+	var p cdptypes.Params
+	kapp.ReadParams(s.W.App, s.Ctx, "cdp", &p)
+	s.P = p
+	s.PStr = s.W.ParamsString(p, s.GenUsdx)
+}
+
+// CP: the parameters in force of universe type ty (nil = not listed).
+func (s *Seq) CP(ty int) *cdptypes.CollateralParam { return FindCollateral(&s.P, ty) }
+
+// SetParamsNow writes a parameter set (keeper route and x/params subspace route alternate) and emits the change
+// as a case of its own: the parameter field carries the NEW parameters, the x/cdp state must be untouched and
+// must satisfy the invariant under the new parameters.
+func (s *Seq) SetParamsNow(p cdptypes.Params, tag string) {
+	pre := s.Pre()
+	k := s.W.Keeper()
+	kapp.SetParams(s.W.App, s.Ctx, "cdp", &p, func() { k.SetParams(s.Ctx, p) })
+	s.RefreshParams()
+	s.NGov++
+	// signature: the first field changed (+more), not every combination
+	sig := tag
+	if i := strings.Index(tag, "+"); i >= 0 {
+		sig = tag[:i] + "+more"
+	}
+	s.Out.Note("gov:" + tag)
+	s.finish("params", []string{fmt.Sprint(s.Now())}, sig, pre, kapp.OK, nil)
 }
 
 func (s *Seq) Pre() Obs {
@@ -272,16 +312,33 @@ func (s *Seq) NextBlock(gapSeconds int64, tag string) (kapp.Class, error) {
 	pk.SetCurrentPricesForAllMarkets(s.Ctx)
 	s.Ctx = s.Ctx.WithBlockTime(s.Ctx.BlockTime().Add(time.Duration(gapSeconds) * time.Second)).WithBlockHeight(s.Ctx.BlockHeight() + 1)
 	s.pre = nil
+	// block boundary: a pending governance change is enacted now (governance end blocker of the old block /
+	// committee begin blocker of the new one, both before the cdp begin blocker)
+	if s.Pending != nil {
+		p := s.P
+		p.CollateralParams = append(cdptypes.CollateralParams{}, s.P.CollateralParams...)
+		gtag := s.Pending(&p)
+		s.Pending = nil
+		if gtag != "" {
+			s.SetParamsNow(p, gtag)
+			tag += "+gov"
+		}
+	}
+	// the parameters in force for this block, as the store holds them
+	s.RefreshParams()
 	pre := s.Pre()
 	k := s.W.Keeper()
-	// the value CalculateInterestFactor returns for each type in this block (model parameter; asserted ≥ 1)
+	// the value CalculateInterestFactor returns for each type in this block for the stability fee IN FORCE
+	// (model parameter; asserted ≥ 1); 1 for a type that is not listed
 	facs := make([]string, len(Types))
 	for i, t := range Types {
 		f := sdk.OneDec()
-		if prev, ok := k.GetPreviousAccrualTime(s.Ctx, t.Name); ok {
-			el := int64(math.RoundToEven(s.Ctx.BlockTime().Sub(prev).Seconds()))
-			if el > 0 {
-				f = cdpkeeper.CalculateInterestFactor(s.P.CollateralParams[i].StabilityFee, sdkmath.NewInt(el))
+		if cp := s.CP(i); cp != nil {
+			if prev, ok := k.GetPreviousAccrualTime(s.Ctx, t.Name); ok {
+				el := int64(math.RoundToEven(s.Ctx.BlockTime().Sub(prev).Seconds()))
+				if el > 0 {
+					f = cdpkeeper.CalculateInterestFactor(cp.StabilityFee, sdkmath.NewInt(el))
+				}
 			}
 		}
 		if f.LT(sdk.OneDec()) {
